@@ -18,38 +18,68 @@ TracePol == [v \in DOMAIN PolTab |->
                 [rules |-> [r \in DOMAIN PolTab[v].rules |-> [n \in DOMAIN PolTab[v].rules[r] |->
                                 [pr |-> ToS(PolTab[v].rules[r][n].pr), thr |-> PolTab[v].rules[r][n].thr]]],
                  gthr |-> {[refs |-> ToS(x.refs), thr |-> x.thr] : x \in ToS(PolTab[v].gthr)},
-                 bfp |-> ToS(PolTab[v].bfp), all |-> ToS(PolTab[v].all)]]
+                 bfp |-> ToS(PolTab[v].bfp), all |-> ToS(PolTab[v].all), apps |-> PolTab[v].apps]]
 
 E(e) == CASE e.k = "ann" -> [k |-> "ann", tg |-> ToS(e.tg), s |-> e.s]
-          [] e.k = "att" -> [k |-> "att", apps |-> {[ref |-> a.ref, from |-> a.from, tree |-> a.tree, by |-> ToS(a.by)] : a \in ToS(e.apps)}]
-          [] e.k = "pol" -> [k |-> "pol", v |-> e.v]
+          [] e.k = "att" -> [k |-> "att", apps |-> {[ref |-> a.ref, from |-> a.from, tree |-> a.tree, sref |-> a.sref, sfrom |-> a.sfrom,
+                                                   stree |-> a.stree, by |-> ToS(a.by)] : a \in ToS(e.apps)},
+                               crs |-> {[ref |-> a.ref, from |-> a.from, tree |-> a.tree, sref |-> a.sref, sfrom |-> a.sfrom, stree |-> a.stree,
+                                         app |-> a.app, signer |-> a.signer, approvers |-> ToS(a.approvers), dismissed |-> ToS(a.dismissed)] : a \in ToS(e.crs)}]
+          [] e.k = "pol" -> [k |-> "pol", v |-> e.v, cv |-> e.cv, sv |-> e.sv]
           [] e.k = "stg" -> [k |-> "stg"]
           [] OTHER -> [k |-> e.k, ref |-> e.ref, s |-> e.s, tree |-> e.tree, par |-> e.par]
 Log(scn) == [i \in DOMAIN scn.log |-> E(scn.log[i])]
 
-DV(lg, r) == IF Prop = "C07" THEN DVerdictC07(lg, r) ELSE DVerdictC01(lg, r)
+DV(lg, r, up) == IF Prop = "C07" THEN DVerdictC07(lg, r, up) ELSE DVerdictC01(lg, r, up)
 
 \* observation for ref r: [res, tip]
 TipOK(lg, r, o) == o.res # "ok" \/ o.tip = LatestFor(lg, r)
 
-ClassifyRef(lg, r, o, twin) ==
-    LET v == OkOrFail(o.res) d == DV(lg, r) IN
+\* generic judgement of one observation o against documented verdict d and the model's results under deviation sets
+Judge(lg, r, o, dlo, d, implOf(_), twinOK) ==       \* dlo / d: lower / upper bound of the documented verdict
+    LET v == OkOrFail(o.res) IN
     IF o.res \in {"panic"} THEN [cls |-> "violation", why |-> "panic"]
-    ELSE IF v = d /\ TipOK(lg, r, o) /\ (Prop = "C11" /\ v = "ok" => OkOrFail(twin.res) = "ok")
-    THEN IF o.res \in {Impl(lg, r, AsBuilt), Impl(lg, r, {})} THEN [cls |-> "conform"] ELSE [cls |-> "safe", why |-> "error class differs from the model"]
-    ELSE LET S == {x \in SUBSET AsBuilt : x \cap Known # {} /\ OkOrFail(Impl(lg, r, x)) = v} IN
+    ELSE IF Prop = "C02" /\ ~(v = "ok" /\ ~PoliciesOK(lg, LatestFor(lg, r)))
+    THEN \* C02 only concerns the policy entries a verification depends on; authorisation questions are C01's
+         IF o.res \in {implOf(AsBuilt), implOf({})} THEN [cls |-> "conform"] ELSE [cls |-> "safe", why |-> "differs from the model (not a policy-chain matter)"]
+    ELSE IF Between(v, dlo, d) /\ TipOK(lg, r, o) /\ twinOK
+    THEN IF o.res \in {implOf(AsBuilt), implOf({})} THEN [cls |-> "conform"] ELSE [cls |-> "safe", why |-> "error class differs from the model"]
+    ELSE LET S == {x \in SUBSET AsBuilt : x \cap Known # {} /\ OkOrFail(implOf(x)) = v} IN
          IF v = "ok" /\ d = "fail" /\ S # {} /\ TipOK(lg, r, o)
          THEN [cls |-> "known", dev |-> CHOOSE x \in S : \A y \in S : Cardinality(x) <= Cardinality(y)]
          ELSE IF ~TipOK(lg, r, o) THEN [cls |-> "violation", why |-> "reported tip is not the target of the latest entry"]
-         ELSE IF v = "ok" THEN [cls |-> "violation", why |-> "accepted a history the policy in force does not authorise"]
-         ELSE IF v = d THEN [cls |-> "violation", why |-> "accepted with global rules, rejected without them"]
+         ELSE IF Prop = "C02" THEN [cls |-> "violation", why |-> "accepted although a policy entry it depends on breaks the chain of trust or is not self-valid"]
+         ELSE IF v = "ok" /\ d = "fail" THEN [cls |-> "violation", why |-> "accepted a history the policy in force does not authorise"]
+         ELSE IF Between(v, dlo, d) THEN [cls |-> "violation", why |-> "accepted with global rules, rejected without them"]
          ELSE [cls |-> "violation", why |-> "rejected a history in which every unrevoked entry is authorised"]
 
+ClassifyRef(lg, r, o, twin) ==
+    Judge(lg, r, o, DV(lg, r, FALSE), DV(lg, r, TRUE), LAMBDA x : Impl(lg, r, x), (Prop = "C11" /\ OkOrFail(o.res) = "ok") => OkOrFail(twin.res) = "ok")
+
+\* C02: latest-only and from-entry modes
+ClassifyLatest(lg, r, o) == Judge(lg, r, o, DVerdictLatest(lg, r, FALSE), DVerdictLatest(lg, r, TRUE), LAMBDA x : ImplLatest(lg, r, x), TRUE)
+ClassifyFrom(lg, r, i, o) == Judge(lg, r, o, DVerdictFrom(lg, r, i, FALSE), DVerdictFrom(lg, r, i, TRUE), LAMBDA x : ImplFrom(lg, r, i, x), TRUE)
+\* mode agreement: full accepts => latest-only accepts
+Agree(full, latest) == OkOrFail(full.res) = "ok" => OkOrFail(latest.res) = "ok"
+
 None == [res |-> "none", tip |-> 0]
+StrToNat(str) == CHOOSE n \in 1..99 : ToString(n) = str
 Classify(line) ==
     LET lg == Log(line.scn) IN
     [r \in DOMAIN line.obs.full |->
-        ClassifyRef(lg, r, line.obs.full[r], IF "twin" \in DOMAIN line.obs /\ r \in DOMAIN line.obs.twin THEN line.obs.twin[r] ELSE None)]
+        LET full == ClassifyRef(lg, r, line.obs.full[r], IF "twin" \in DOMAIN line.obs /\ r \in DOMAIN line.obs.twin THEN line.obs.twin[r] ELSE None) IN
+        IF Prop # "C02" \/ r \notin DOMAIN line.obs.latest THEN full
+        ELSE LET lat == ClassifyLatest(lg, r, line.obs.latest[r])
+                 frs == [p \in DOMAIN line.obs.from[r] |-> ClassifyFrom(lg, r, StrToNat(p), line.obs.from[r][p])]
+                 all == {full, lat} \cup {frs[p] : p \in DOMAIN frs}
+                 bad == {x \in all : x.cls = "violation"}
+                 kn  == {x \in all : x.cls = "known"}
+                 sf  == {x \in all : x.cls = "safe"}
+             IN \* (mode agreement follows from the per-mode verdicts: it is a theorem of Layer D, checked in MC_Verify)
+                IF bad # {} THEN CHOOSE x \in bad : TRUE
+                ELSE IF kn # {} THEN CHOOSE x \in kn : TRUE
+                ELSE IF sf # {} THEN CHOOSE x \in sf : TRUE
+                ELSE [cls |-> "conform"]]
 
 Init == l = 1
 Next == /\ l <= Len(TL)
